@@ -38,22 +38,30 @@ CLAIMED = {
              "python generator ground truth as value oracle; std::istream modelled (Model/Window.lean).",
         technique="Lean 4 proof (structural induction over CBOR syntax) + differential correspondence", design="§4 C07"),
     "C01": dict(
-        text="Lean 4: the code's map keys and hint bits (regenerated from the working tree) equal the RFC 8618 transcription "
-             "(keys_match_rfc), offsets/time recovery (C17), encoder output (C06), exporter conservation (C12). End-to-end decision on "
-             "the implementation: three-way differential per output - library reader, independent Lean RFC 8618 reader "
-             "(Spec.Cdns.interpret over a strict CBOR parser) and the reference expectation (records buffered, RFC hint projection).",
-        note="Partial proof: the composed export->read theorem is split into per-layer theorems (keys, encoder, timestamps, exporter "
-             "bookkeeping, schema round trip C09); the record-level composition is tied by correspondence. Trusted: RFC transcription "
-             "from memory, tools/refexp.py + cdnsgen.py (spec oracle), harness/file.cpp.",
-        technique="Lean 4 proofs per layer + translator-checked RFC key table + three-way differential with an independent Lean reader", design="§4 C01"),
+        text="Lean 4: file_roundtrip - over one generic interpreter of the ~60 struct write/read functions (Model.Schema) instantiated with the "
+             "preamble and block schemas (keys and member widths regenerated from the source), a file laid out as the exporter lays it out is "
+             "read back by the model of CdnsReader as exactly the preamble and blocks written, nothing left over (every member, table entry and "
+             "record, integers over their whole width, strings bit for bit), at any window offset (C05.runW_refines); file_roundtrip_checked "
+             "makes the theorem's domain executable. Plus: code keys/hint bits = RFC 8618 (keys_match_rfc), time offsets (C17), encoder (C06), "
+             "exporter conservation (C12). Tie to the code on every output of every session: model reader dump = library reader dump, model "
+             "writer bytes = library bytes, value read lies in the theorem's domain (blk driver); and the three-way differential - library "
+             "reader, independent Lean RFC 8618 reader (Spec.Cdns.interpret) and the reference expectation (records buffered, RFC projection).",
+        note="Partial proof: the step from generic records to raw block values (hint projection, table building) is tied by correspondence "
+             "(reference exporter + independent reader), not modelled in Lean. Trusted: Model/Structs.lean schema table (checked by the blk "
+             "correspondence and block_widths_match), RFC transcription, tools/refexp.py + cdnsgen.py (spec oracle), harness/file.cpp.",
+        technique="Lean 4 proof (generic schema round trip, file level) + model/implementation correspondence on every output + three-way differential", design="§4 C01"),
     "C02": dict(
-        text="Lean 4 theorems over the exporter model for every call history: an output without blocks gets zero bytes, otherwise header once "
-             "+ blocks + exactly one break when closed (output_shape), preamble covers the blocks' parameter sets under the documented "
-             "duty (params_cover), framing bytes are the RFC 8949 encodings (C06). Inner structure decided on the implementation by the "
-             "strict Lean parser + RFC 8618 validator on every output of sessions with present-but-empty structures and directly built blocks.",
-        note="Partial proof: inner block structure (declared lengths, mandatory members, closed indices) is validated per output by "
-             "Spec.Cdns.interpret (executable spec), proved only at framing level and struct level (C09). Trusted: RFC transcription.",
-        technique="Lean 4 proof (invariant by induction over exporter operations) + strict Lean parser/validator as oracle", design="§4 C02"),
+        text="Lean 4, framing (exporter model, every call history): an output without blocks gets zero bytes, otherwise header once + blocks + "
+             "exactly one break when closed (output_shape), preamble covers the blocks' parameter sets under the documented duty (params_cover), "
+             "framing bytes are the RFC 8949 encodings (C06). Lean 4, inner structure (schema model): file_is_one_wellformed_item - a closed "
+             "output holding conforming preamble/blocks is the encoding of exactly one well-formed item whose declared array/map lengths are "
+             "the members present; file_parses_back / strict_parser_inverts_encoding - the strict RFC 8949 parser returns exactly that item "
+             "(parser is a left inverse of the encoding for EVERY well-formed item); mandatory_members_present. Tie: the model writer reproduces "
+             "the library's bytes on every output (blk driver), incl. present-but-empty structures and directly built blocks; closed indices "
+             "and schema validity by the validator Spec.Cdns.interpret on every output.",
+        note="Partial proof: index closure (every stored index addresses a table entry) is validated per output by Spec.Cdns.interpret, not "
+             "proved over a model of the table-building code. Trusted: Model/Structs.lean schema table, RFC transcription.",
+        technique="Lean 4 proof (invariants over exporter operations; schema-level well-formedness; parser inversion) + strict Lean parser/validator as oracle", design="§4 C02"),
     "C04": dict(
         text="Lean 4: hint bits equal the RFC's and are pairwise distinct (translator-regenerated), disabled address events / malformed "
              "messages and unstored records leave blocks untouched (exporter model). Projection and reachability decided on the "
@@ -86,21 +94,27 @@ CLAIMED = {
     "C05": dict(
         text="Lean 4: readToBuffer_spec and runW_refines - the real window/istream state machine refines the plain remaining-input view for "
              "EVERY decoder program (end-of-input thrown exactly when no byte is left: empty input, k*65535 bytes, unreadable stream; never a "
-             "stale byte); run_append/run_prefix (extension stability of every program); prefix_blocks_sound and prefix_blocks (a reader on a "
-             "prefix returns exactly the leading blocks inside the prefix, then end-of-input). Tied by decoder-level runs at the buffer "
-             "multiples and by cutting exporter-produced files of 1-4 windows at every point around window multiples and block boundaries.",
-        note="Trusted: std::istream read/gcount/eof semantics modelled in Model/Window.lean; the library's block reader being a 'tight' decoder "
-             "program (never looks past the last byte it consumes) is validated by the exhaustive cuts at block boundaries, not proved.",
-        technique="Lean 4 proof (refinement + generic theorems over all decoder programs) + differential correspondence / cut-point enumeration", design="§4 C05"),
+             "stale byte); run_append/run_prefix (extension stability of every program); prefix_blocks_sound / prefix_blocks / prefix_blocks_inv "
+             "(generic readers); truncated_blocks / truncated_output - the concrete model of CdnsReader::read_block over the block schema, on a "
+             "block array cut at ANY byte offset, returns exactly the blocks wholly inside the cut (for the exporter's encoding and every "
+             "equivalent well-formed re-encoding) and then CdnsDecoderEnd; readBlock_cut - a cut inside a block never yields a value. Tied by "
+             "decoder-level runs at the buffer multiples and by cutting exporter-produced files of 1-4 windows at every point around window "
+             "multiples and block boundaries: library = expectation = schema model (blkc driver) on every cut.",
+        note="Trusted: std::istream read/gcount/eof semantics modelled in Model/Window.lean; Model/File.lean readBlock transcribes "
+             "CdnsReader::read_block (tied by the blkc correspondence).",
+        technique="Lean 4 proof (refinement + generic theorems over all decoder programs + concrete block reader) + differential correspondence / cut-point enumeration", design="§4 C05"),
     "C08": dict(
-        text="Lean 4 (decoder level): read results independent of head width, chunking, definite/indefinite starts; unknown member values of "
-             "any well-formed shape are skipped exactly (skip_exact); keys beyond int64 saturate and cannot alias known keys. Struct level "
-             "decided on the implementation: exporter-produced files rewritten by random compositions of all the rewrites (incl. unknown keys "
-             "with tagged/float/deeply nested values) must give the same reader dump; the independent Lean reader confirms each rewrite is "
-             "denotation-preserving.",
-        note="Partial proof: the struct-level theorem (read_denotes for every schema) is not yet proved; tie is differential. Trusted: "
-             "tools/cborgen.py rewrites, Spec/Cdns.lean.",
-        technique="Lean 4 proof at decoder level + metamorphic differential testing with an independent Lean reader as equivalence oracle", design="§4 C08"),
+        text="Lean 4, struct level (generic interpreter Model.Schema, every schema; preamble and block trees are instances): read_denotes - on "
+             "EVERY well-formed encoding the byte-level reader returns the denotation `denote k i`, a function of the data only (members looked "
+             "up by key, head widths / definite-vs-indefinite / chunking invisible, unknown members ignored whatever they carry), and stops "
+             "exactly behind the item; equivalent_encodings_read_equal; each rewrite of the property preserves the denotation at any depth: "
+             "width_*, indef_*, chunked_*, unknown_member_ignored, member_order_irrelevant (any permutation, distinct keys), nested_array, "
+             "nested_members. Decoder level: skip_exact for any well-formed unknown value, keys beyond int64 saturate (big_key_not_small). "
+             "Tie: exporter-produced files rewritten by random compositions of all rewrites; library reader dump(original) = dump(rewritten) "
+             "= schema-model reader on the rewritten file (sch/blk drivers); the independent Lean reader confirms each rewrite kept the meaning.",
+        note="Trusted: tools/cborgen.py rewrites, Spec/Cdns.lean, Model/Structs.lean schema table. The resolution of indexes/time offsets after "
+             "the raw read is outside the schema model (independent interpretation Spec.Cdns).",
+        technique="Lean 4 proof (reader computes a syntax-independent denotation; rewrite lemmas) + metamorphic differential testing", design="§4 C08"),
     "C09": dict(
         text="Lean 4: one generic interpreter of the struct write/read functions (Model/Schema) instantiated for FilePreamble -> BlockParameters -> "
              "StorageParameters -> StorageHints/CollectionParameters with keys regenerated from the source; theorems struct_roundtrip / "
